@@ -813,7 +813,14 @@ fn parse_and_verify_peer_id(
             tracing::debug!(target: LOG_TARGET, "payload without signature");
         })?;
 
-    let peer_id = PeerId::from_public_key_protobuf(&identity);
+    // Derive the peer ID from the decoded key, not from the received bytes: a non-canonical
+    // protobuf encoding of the same key (reordered fields, unknown fields, non-minimal varints)
+    // must not yield a different peer ID.
+    let peer_id = match &remote_public_key {
+        RemotePublicKey::Ed25519(key) => PeerId::from_public_key(&PublicKey::Ed25519(key.clone())),
+        #[cfg(feature = "rsa")]
+        RemotePublicKey::Rsa(_) => PeerId::from_public_key_protobuf(&identity),
+    };
 
     if !remote_public_key.verify(
         &[STATIC_KEY_DOMAIN.as_bytes(), dh_remote_pubkey].concat(),
